@@ -9,13 +9,13 @@ HOOK_COMMITS = subprocess.run(
 CHECKS = {
     # id: (engine, category, technique, text, note, design_ref)
     "C01": ("S", "model_checking",
-            "stateless schedule exploration (token-passing scheduler over OS threads, DFS with preemption bounding) of pairs/triples of real writer operations on a shared store",
-            "Every unordered pair of 13 real writer/reader operations (message, run spawned/ended, side effects, cursor set/rotate, selection decided, manual/auto/scheduled compaction, branch, handoff, reader replay) on one shared thread, from a warm, a restarted and a restarted-cache-less store, plus sessions and linked runs sharing the log writer, is explored over all interleavings at lock / publish / cache / log-effect hooks with <=1 (quick) / <=2-3 (thorough, plus triples) preemptions; at quiescence a fresh EventLog must pass validated replay, every stream must read 0..n-1 in file order, every acknowledged id must appear once, and the same after a restart plus one more append per thread.",
-            "2-3 actors, one op each; scheduling granularity = hook points (critical sections are the real ones: predicates read the real locks); preemption bound; histories crossing several restarts are covered by C05/C04.",
+            "stateless schedule exploration (token-passing scheduler over OS threads, DFS with preemption bounding) of pairs/triples of real writer operations on a shared store; plus bounded exhaustive enumeration of provider tool-loop scripts for the sequential numbering clause",
+            "Every unordered pair of 13 real writer/reader operations (message, run spawned/ended, side effects, cursor set/rotate, selection decided, manual/auto/scheduled compaction, branch, handoff, reader replay) on one shared thread, from four pre-states (warm; restarted; restarted without caches; restarted with caches that lag the last logged frame while the log ends with another thread), plus sessions and linked runs sharing the log writer, is explored over all interleavings at publish / cache / log-effect hooks AND at the acquisitions of the seq lock and the log writer lock with <=1 (quick) / <=2-3 (thorough, plus triples) preemptions; at quiescence a fresh EventLog must pass validated replay, every stream must read 0..n-1 in file order, every acknowledged id must appear once, and the same after a restart plus one more append per thread. Sequential part: every provider script with <=1 function call x 7 tool_choice settings x 2 history modes through the production router; every stream of the log must read 0..n-1.",
+            "2-3 actors, one op each; scheduling granularity = hook points incl. lock acquisitions (critical sections are the real ones: predicates read the real locks); a race added between two steps without a hook in between is not seen; preemption bound; histories crossing several restarts are covered by C05/C04.",
             "DESIGN.md §3 C01"),
     "C02": ("H-histories", "exploration",
-            "bounded exhaustive enumeration of write histories on the real store; byte-prefix / whole-line oracle after every step; the read-only call set over its parameter domain in every reached state",
-            "Every history of <=3 (quick) / <=4 (thorough) ops over a 16-op alphabet (incl. refused checkpoints, drop caches, restart) is executed; after every step the previous log bytes must be a prefix of the new ones and the suffix whole newline-terminated JSON frames with the envelope keys, every other changed file must be a cache / snapshot / workspace .rip file; in every reached state ~150 read-only, dry-run, nothing-plannable, stride-0 and unknown/hostile-thread-id calls (store API and GET routes incl. the three SSE handlers and /config/doctor) must add zero bytes, again with caches dropped and after restart.",
+            "bounded exhaustive enumeration of write histories on the real store; byte-prefix / whole-line oracle after every step; the read-only call set over its parameter domain in every reached state; a second writer handle",
+            "Every history of <=3 (quick) / <=4 (thorough) ops over a 17-op alphabet (incl. refused checkpoints, a summarizer job left in flight, drop caches, restart) is executed; after every step the previous log bytes must be a prefix of the new ones and the suffix whole newline-terminated JSON frames with the envelope keys, every other changed file must be a cache / snapshot / workspace .rip file; in every reached state ~170 read-only, dry-run (x block_on_inflight x execute), nothing-plannable, stride-0 and unknown/hostile-thread-id calls (store API and GET routes incl. the three SSE handlers and /config/doctor) must add zero bytes, again with caches dropped and after restart; every history ends with one frame through a writer handle opened before it and one by the engine, both of which must land at the end.",
             "Depth bound; the SSE bodies are not polled (attach only); frames logged by failing operations are not judged; task/session write paths are covered by C01/C07.",
             "DESIGN.md §3 C02"),
     "C03": ("H-histories", "exploration",
@@ -24,58 +24,58 @@ CHECKS = {
             "Value domains are representatives; absent/null/empty encodings of optional fields are treated as equal; the raw sidecar file may be a contiguous partial run before its lazy rebuild (completeness judged through replay_events); task streams are covered by C17/C06.",
             "DESIGN.md §3 C03"),
     "C04": ("H-histories", "fault_enumeration",
-            "bounded exhaustive enumeration of histories x single cache faults x read capabilities; differential oracle (fault applied vs cache directory removed) on fresh authorities; watchdog for termination",
-            "For every history of <=3 (quick) / <=4 (thorough) ops plus window-crossing threads (600 / 10 001 dense frames, 300 KiB and 3x3 MiB messages, 18 messages) every single fault {delete, truncate to 0 / 1 byte / mid-record / last line boundary / half, equal-length garbage, roll-back to the content after each earlier op} is applied to every cache file of the thread; a fresh authority must then answer replay, cut points, compaction status, cursor status, selection status and the compiled context for every message anchor exactly like a fresh authority on the same store without caches, again after one more append, and validated replay must still hold; every step runs under a 25 s watchdog.",
-            "Single faults only (pairs disabled until single-fault findings are attributable inside pairs); histories bounded; the truth side equals log replay by construction; faults are applied while no authority is running (concurrent cache damage is not modelled); four known-finding classes (derived caches validated only against themselves).",
+            "bounded exhaustive enumeration of histories x single cache faults x read capabilities with a differential oracle against a cache-less truth side on fresh authorities and a watchdog for termination; plus stateless schedule exploration at system-call granularity of one reader racing one appender",
+            "For every history of <=3 (quick) / <=4 (thorough) ops (incl. frames on a second thread, so that the log ends with a foreign frame) plus window-crossing threads (600 / 10 001 dense frames, 300 KiB and 3x3 MiB messages, 18 messages, 40 x 20 KiB messages) every single fault {delete, truncate to 0 / 1 byte / mid-record / last line boundary / half, equal-length garbage, roll-back to the content after each earlier op} is applied to every cache file of the thread; a fresh authority must then answer replay (asked last), cut points, compaction status, cursor status, selection status and the compiled context for every message anchor exactly like a fresh authority on a copy whose cache directory is removed before EVERY query, again after one more append, and validated replay must still hold; every step runs under a 25 s watchdog. System-call part: each read capability racing one append (message, run ended, side effect, checkpoint, cursor) on a warm and on a cache-less store, every file-system call a scheduling point, <=1 (thorough: 76 configurations, one at <=2) preemptions: the answer must be that of one of the two sequential orders and the caches left behind must be transparent.",
+            "Single faults only (pairs are not enumerated); histories bounded; faults are applied while no authority is running, except for the cache-less warm store of the race part; five known-finding classes, recorded as regular expressions over signatures that carry the kind of the thread's last frame (what the open-time recovery can see).",
             "DESIGN.md §3 C04"),
     "C05": ("K", "fault_enumeration",
             "exhaustive crash-point enumeration: an LD_PRELOAD shim kills the real process before every mutating file-system call of every bounded history; recovery oracle on the leftover directory",
-            "Every history of <=2 (quick) / <=3 (all 11 ops) and 4 (5 cheapest ops) operations after open+ensure_default runs in a subprocess under the shim once per mutating syscall on a store path (3-95 crash points per history, 4.6k quick / 95k thorough in total); after each kill a fresh authority must replay and validate the log, find every acknowledged frame exactly once, find every referenced artifact, resolve the default thread, continue the numbering after one append per thread, and answer every read capability as with the caches removed.",
-            "Crash model = process death at syscall boundaries with atomic write(2) (no power loss / write-back reordering: rip never fsyncs); the shim interposes libc's open*/creat/write/writev/pwrite*/rename*/unlink*/mkdir*/rmdir/ftruncate*/link/symlink; one authority, single-threaded history.",
+            "Every history of <=2 (quick) / <=3 (all 11 ops) and 4 (5 cheapest ops) operations after open+ensure_default, plus a 70 KiB message before and after every op, runs in a subprocess under the shim once per mutating syscall on a store path (6.6k crash points quick / ~110k thorough); after each kill a fresh authority must replay and validate the log, find every acknowledged frame exactly once, find every referenced artifact, answer every read capability and the compiled context as with the caches removed (both query orders, each on its own copy), continue the numbering with one append per thread as its FIRST operation, answer everything again as without caches after that append, and resolve the default thread.",
+            "Crash model = process death at syscall boundaries with atomic write(2) (no power loss / write-back reordering: rip never fsyncs); the shim interposes libc's open*/creat/write/writev/pwrite*/rename*/unlink*/mkdir*/rmdir/ftruncate*/link*/symlink; one authority, single-threaded history.",
             "DESIGN.md §3 C05"),
     "C06": ("S", "model_checking",
             "stateless schedule exploration (CHESS-style token-passing scheduler over OS threads, DFS over choice sequences) of the real emitters racing the real SSE handlers through the production router",
-            "For the session, task and thread streams (thread with the sidecar present and deleted) every interleaving of the producer's lock/publish/record steps with one subscriber's subscribe / snapshot steps is executed with no preemption bound (two subscribers: preemption bound 2 in quick for sessions, all kinds in thorough); each execution runs the real run_session / TaskEmitter::emit / append_message against the real GET .../events handler, and the frames the subscriber's body yields must be exactly the stream's frames in the log, once, in order.",
-            "Scheduling granularity = hook points; body polling order is not explored (the broadcast receiver buffers everything after subscribe; lag beyond the 16384-frame capacity is outside the quantifier); 3-4 frames per stream; replay determinism is asserted.",
+            "For the session, task and thread streams (thread with the sidecar present and deleted) every interleaving of the producer's lock/publish/record steps with one subscriber's subscribe / snapshot steps is executed with no preemption bound (two subscribers: preemption bound 2 in quick for sessions, all kinds in thorough; two emitters of one task + one subscriber: bound 2 / 3); each execution runs the real run_session / TaskEmitter::emit / append_message against the real GET .../events handler, and the frames the subscriber's body yields must be exactly the stream's frames in the log, once, in seq order.",
+            "Scheduling granularity = hook points; body polling order is not explored (the broadcast receiver buffers everything after subscribe; lag beyond the 16384-frame capacity is outside the quantifier); 3-4 frames per stream; replay determinism is asserted; a log append that fails (I/O error) is in no alphabet.",
             "DESIGN.md §3 C06"),
     "C07": ("P", "exploration",
             "bounded exhaustive enumeration of provider scripts x input kinds x parallel-run pairs through the production router against an in-process scripted provider; lifecycle grammar evaluated on the log",
-            "First responses = every sequence of <=2 (quick) / <=3 (thorough) events from a 7-event alphabet (text, completed, calls to write / unknown tool / invalid args, malformed JSON, schema-invalid) x {[DONE], close, abort}, cuts inside the last event, HTTP errors, empty body; 6 follow-up responses after calls; both history modes; 9 input kinds (prompt, tool and checkpoint envelopes incl. failing, timing-out, unknown, refused) with and without provider; two context-compile failures; 6 pairs of parallel runs. Every run goes through POST /threads/{id}/messages; afterwards each message must have exactly one run_spawned, each run exactly one run_ended after its single terminal session frame, selection < compiled < side effects / cursor < ended, sessions start at seq 0 and end once, jobs end at most once, and validated replay must hold.",
+            "First responses = every sequence of <=2 (quick) / <=3 (thorough) events from a 7-event alphabet (text, completed, calls to write / unknown tool / invalid args, malformed JSON, schema-invalid) x {[DONE], close, abort}, cuts inside the last event, HTTP errors with short and adversarial bodies (empty, 70 KiB, multi-byte text shifted by 0..3 bytes), empty body; 6 follow-up responses after calls; both history modes; 9 input kinds (prompt, tool and checkpoint envelopes incl. failing, timing-out, unknown, refused) with and without provider; two context-compile failures; 6 pairs of parallel runs. Every run goes through POST /threads/{id}/messages; afterwards each message must have exactly one run_spawned, each run exactly one run_ended after its single terminal session frame, selection < compiled < side effects / cursor < ended, sessions start at seq 0 and end once, jobs end at most once, and validated replay must hold.",
             "Script alphabet and length bounds; real runtime scheduling inside a run is not controlled (the oracle is schedule-independent); provider-gated enumeration of exchange orders for parallel runs is not built (pairs run freely).",
             "DESIGN.md §3 C07"),
     "C08": ("H-histories", "exploration",
-            "bounded exhaustive enumeration of thread histories x every message anchor through the real compile entry; path differential (cache variants, later appends) + reference of the documented contract",
-            "Every history of <=4 (quick) / <=5 (thorough) ops over {message, answered run, open run, run_ended for the oldest open run, side effects, cursor, checkpoints at last/first message} and macro threads crossing the 16-message limit and the tail windows (15/16/17/18/33 messages, 17 answered runs, 20 messages with three checkpoints, 40 x 20 KiB, thorough 18 x 600 KiB) is compiled for every message as anchor on the warm store, a restarted store, a store without the messages+runs cache family and a store without caches; from_seq, strategy, selected checkpoints and the user/assistant dialogue must agree across the four and equal the reference contract, and must not change when frames are appended after the cut.",
-            "Depth bound; replies come from stub runs ('ack: ...'); the compile-vs-appender schedule sub-check of the design is not built; stale caches are C04's subject.",
+            "bounded exhaustive enumeration of thread histories x every message anchor through the real compile entry; path differential (cache variants, later appends) + reference of the documented contract; plus stateless schedule exploration at system-call granularity of a compile racing one append",
+            "Every history of <=4 (quick) / <=5 (thorough) ops over {message, answered run, open run, run_ended for the oldest open run, side effects, cursor, checkpoints at last/first message} and macro threads crossing the 16-message limit and the tail windows (15/16/17/18/33 messages, 17 answered runs, 20 messages with three checkpoints, 40 x 20 KiB, thorough 18 x 600 KiB) is compiled for every message as anchor on the warm store, a restarted store, a store without the messages+runs cache family and a store without caches; from_seq, strategy, selected checkpoints and the user/assistant dialogue must agree across the four and equal the reference contract, and must not change when frames are appended after the cut. System-call part: a compile racing one append (message, run ended, side effect, checkpoint at the last message, cursor) on a warm store, a cache-less store and an 18-message thread with a checkpoint, every file-system call a scheduling point, <=1 preemption (thorough: 37 configurations, two at <=2): the bundle must be that of one of the two sequential orders.",
+            "Depth bound; replies come from stub runs ('ack: ...'); a checkpoint with to_seq <= the cut that lands during a compile is not judged (eligibility is by to_seq on the stream at selection time, ADR-0011); stale caches are C04's subject.",
             "DESIGN.md §3 C08"),
     "C09": ("H-histories", "exploration",
             "bounded exhaustive enumeration of thread histories x compaction commands x parameter domains on the real store against a reference planner evaluated on log replay",
-            "Every history of <=4 (quick) / <=5 (thorough) ops over {message, answered run, side effects, manual checkpoints at last/first message and by stride, auto, schedule variants, inflight job}; in the reached state cut points for 7 strides x 6 limits must equal the reference planner (warm store and a copy without caches); auto(stride,max_new) on copies must create exactly the planned checkpoints inside one job_spawned/job_ended bracket with readable summaries of matching coverage, identical text on a byte-identical twin store (modulo ids minted by the run), and a repeat with nothing to do must be a zero-byte noop; schedule decisions (noop / dry_run / skipped_inflight / scheduled / completed) must match the reference.",
+            "Every history of <=4 (quick) / <=5 (thorough) ops over {message, answered run, side effects, manual checkpoints at last/first message and by stride, auto, schedule variants, inflight job} plus 25 histories with overlapping jobs (the spawn half and the run half of an auto job as separate ops, two or three jobs for one cut point in every order); in the reached state cut points for 7 strides x 6 limits must equal the reference planner (warm store and a copy without caches); auto(stride,max_new) on copies must create exactly the planned checkpoints inside one job_spawned/job_ended bracket with readable summaries of matching coverage, identical text on a byte-identical twin store (modulo ids minted by the run), and a repeat with nothing to do must be a zero-byte noop; the summaries that auto jobs render for one cut point must be equal modulo the producing job's id; schedule decisions (noop / dry_run / skipped_inflight / scheduled / completed) must match the reference.",
             "Depth and parameter bounds; the concurrent schedule/auto sub-check of the design is covered only by C01's pair exploration (AutoCompaction/ScheduleCompaction pairs: numbering, not bracket integrity); summary text compared modulo 64-hex ids minted by the run.",
             "DESIGN.md §3 C09"),
     "C10": ("H-histories", "exploration",
-            "bounded exhaustive enumeration of parent histories x every selector choice for branch and handoff on the real store (and status codes through the router) against a reference cut",
-            "Every parent history of <=4 (quick) / <=5 (thorough) ops over {message, answered run, open run, run_ended for the oldest open run, side effects, checkpoint} (so overlapping turns arise) x every selector {none, every from_seq in 0..head, head+1, u64::MAX, every message id, a non-message frame id, unknown uuid, non-uuid, both} x {branch, handoff with summary text / existing artifact / missing artifact / neither}: the parent's log lines must be byte-identical, a success must yield a child that is exactly [created, lineage] at seq 0,1 (next append gets 2) recording the reference cut within the parent and a resolvable summary, a refusal must add no thread and no bytes.",
+            "bounded exhaustive enumeration of parent histories x every selector choice for branch and handoff on the real store (and status codes through the router) against a reference cut; plus stateless schedule exploration at system-call granularity of a branch / handoff racing one append on the parent",
+            "Every parent history of <=4 (quick) / <=5 (thorough) ops over {message, answered run, open run, run_ended for the oldest open run, side effects, checkpoint} (so overlapping turns arise) x every selector {none, every from_seq in 0..head, head+1, u64::MAX, every message id, a non-message frame id, unknown uuid, non-uuid, both} x {branch, handoff with summary text / existing artifact / missing artifact / neither}: the parent's log lines must be byte-identical, a success must yield a child that is exactly [created, lineage] at seq 0,1 (next append gets 2) recording the reference cut within the parent and a resolvable summary, a refusal must add no thread and no bytes. System-call part: a branch / handoff with no selector racing one append on the parent, every file-system call a scheduling point, <=1 preemption (thorough: all writers, warm and cache-less, plus <=2): the recorded cut (seq and the message it names) must be that of one state of the parent.",
             "Depth bound; selectors over one parent thread; the router is exercised for status codes only.",
             "DESIGN.md §3 C10"),
     "C11": ("S", "model_checking",
             "stateless schedule exploration (engine S) of pairs of real run_session futures sharing the production workspace lock; oracle on the recorded span trace and the log",
-            "Every unordered pair (thorough: plus two triples) of {write a, write b, apply_patch, checkpoint create, read, ls} envelopes runs as real run_session futures linked to one thread on one SessionEngine; all interleavings at workspace-lock / tool-semaphore / guard and handler span / seq-lock / publish hooks with <=1 (quick) / <=2 (thorough) preemptions; at no step may two workspace guards or two mutating tool handlers be open, read-only tools must be able to overlap (vacuity guard), each mutating tool call must have exactly one side-effects frame before its run_ended, and the side-effect frames across runs must be in the order the guards were acquired.",
+            "Every unordered pair (thorough: plus two triples) of {write a, write b, apply_patch, checkpoint create, write with timeout_ms 0 (ends in tool_failed), read, ls} envelopes runs as real run_session futures linked to one thread on one SessionEngine; all interleavings at workspace-lock / tool-semaphore / guard and handler span / seq-lock / publish hooks with <=1 (quick) / <=2 (thorough) preemptions; at no step may two workspace guards or two mutators (mutating tool handlers, checkpoint create / rewind actions) be open, every mutator must lie inside a guard span of its own run, read-only tools must be able to overlap (vacuity guard), each mutating tool call - also one that ends in tool_failed - must have exactly one side-effects frame before its run_ended, and the side-effect frames across runs must be in the order the guards were acquired.",
             "Tasks (child processes) and the agent-loop tool path are not in this exploration; affected_paths content is not compared; a tool timeout is an input not a schedule: a timed-out tool keeps running after tool_failed (documented limitation, reproduced in round 0, not judged here).",
             "DESIGN.md §3 C11"),
     "C12": ("H-inputs", "exploration",
             "bounded exhaustive input enumeration (patch documents x workspace states) against a reference map model, real apply_patch on a real directory",
-            "Every patch of <=2 ops (<=3 on a reduced set in thorough) over a 4-path / 12-hunk-list alphabet plus 16 malformed envelopes is applied by the real Workspace::apply_patch (and the apply_patch tool) to every enumerated workspace state; success must equal the reference map and name exactly the touched files, failure must leave every byte unchanged.",
+            "Every patch of <=2 ops (<=3 on a reduced set in thorough) over a 5-path (one with a regular file as parent) / 12-hunk-list alphabet plus 16 malformed envelopes is applied by the real Workspace::apply_patch (and the apply_patch tool) to every enumerated workspace state; success must equal the reference map and name exactly the touched files, failure must leave every byte unchanged.",
             "Values outside the alphabet (other line contents, >3 ops, symlinks, permission errors) are not covered; hunk-matching rules of the reference restate the code's documented behaviour (first match at/after cursor); mixed-EOL files compared modulo CR; left-over empty directories are information only.",
             "DESIGN.md §3 C12"),
     "C13": ("H-inputs", "exploration",
             "bounded exhaustive enumeration of a path-string grammar in every path-taking argument of the real tools/router, cwd = root and != root (subprocesses), sentinel tree + canary oracle",
-            "Every string of the path grammar (1-2/1-3 segments from {a,d,..,.,'',unicode,300 chars} x trailing slash x absolute-outside / absolute-inside anchors x backslash joins, plus deeper escapes) is supplied as each of 14 path-taking arguments through the real ToolRunner with the production checkpoint hook and through POST /tasks; the tree outside the root must stay byte-identical, a canary outside must never surface in outputs or under .rip, paths that are absolute or contain '..' must be refused and leave no effect (checkpoint store included).",
+            "Every string of the path grammar (1-2/1-3 segments from {a,d,..,.,'',unicode,300 chars} x trailing slash x absolute-outside / absolute-inside anchors x backslash joins, plus deeper escapes, plus every absolute or '..' string with a leading / trailing space) is supplied as each of 14 path-taking arguments through the real ToolRunner with the production checkpoint hook and through POST /tasks; the tree outside the root must stay byte-identical, a canary outside must never surface in outputs or under .rip, paths that are absolute or contain '..' must be refused and leave no effect (checkpoint store included).",
             "Lexical resolvers are assumed (no symlinks in the workspace); absolute test paths are anchored inside the scratch area; checkpoint creation may accept absolute paths inside the root; log artifacts of a refused task are bookkeeping, not side effects; PTY tasks excluded (no PTY in the sandbox).",
             "DESIGN.md §3 C13"),
     "C14": ("H-histories", "exploration",
             "bounded exhaustive enumeration of checkpoint/edit/rewind histories on the real ToolRunner + production checkpoint hook, cwd = root and != root (subprocesses), reference checkpoint map",
-            "Every history of <=5 (quick) / <=6 (thorough) ops ending in a rewind over {manual checkpoints of path subsets given relative or absolute, write tool, apply_patch add/update/move/delete, external delete, directory at a file path, file at a directory path, rewind to first/second/last checkpoint} is executed on real directories; a successful rewind must restore exactly the observed pre-checkpoint bytes (absent files absent), touch nothing uncovered, a failing rewind must change nothing, and every write/apply_patch must be preceded by an automatic checkpoint covering everything it changed.",
+            "Every history of <=5 (quick) / <=6 (thorough) ops ending in a rewind over {manual checkpoints of path subsets given relative or absolute, write tool, apply_patch add/update/move/delete, four multi-op patches (in histories of <= depth-2 ops), external delete, directory at a file path, file at a directory path, rewind to first/second/last checkpoint} is executed on real directories; a successful rewind must restore exactly the observed pre-checkpoint bytes (absent files absent), touch nothing uncovered, a failing rewind must change nothing, and every write/apply_patch must be preceded by an automatic checkpoint covering everything it changed.",
             "Three paths, four contents, bounded depth; reference record is the harness's own observation of the directory before each checkpoint; no symlinks or permission faults.",
             "DESIGN.md §3 C14"),
     "C15": ("H-inputs", "exploration",
@@ -85,7 +85,7 @@ CHECKS = {
             "DESIGN.md §3 C15"),
     "C16": ("P", "exploration",
             "bounded exhaustive enumeration of function-call scripts x tool_choice settings x history modes through the production router against the scripted provider; judged on the requests the provider received, file effects and the log",
-            "Every set of 0..2 (quick) / 0..3 (thorough) items from {write A, write B (append), read, unknown tool, invalid args} x 4 argument-delivery variants x output_index {in order, reversed, missing} x duplicates {none, repeated done, shared call id} x {[DONE], none} x item ids {present, missing} x 7 tool_choice settings (3 for two-item scripts in quick) x both history modes, plus an endless-call script: request k+1 must answer exactly the completed call ids once each in output order, each permitted call must run exactly once (append markers), a barred tool must leave only the denial pair and no file effect, <= 32 executions per run, every received request must be a valid streaming payload, invalid configurations must send nothing, and stateless inputs must extend.",
+            "Every set of 0..2 (quick) / 0..3 (thorough) items from {write A, write B (append), read, unknown tool, invalid args} x 4 argument-delivery variants x output_index {in order, reversed, missing} x duplicates {none, repeated done, shared call id, a call id coming back on a non-adjacent third item} x {[DONE], none} x item ids {present, missing} x 7 tool_choice settings (3 for two-item scripts in quick) x both history modes, plus an endless-call script under tool_choice {auto, none, function(read)}: request k+1 must answer exactly the completed call ids once each in output order, each permitted call must run exactly once (append markers), a barred tool must leave only the denial pair and no file effect, <= 32 calls per run whether executed or refused, every stream of the log numbered 0..n-1, every received request must be a valid streaming payload, invalid configurations must send nothing, and stateless inputs must extend.",
             "Script alphabet bounds; for two items sharing one call id only 'at most one execution / one answer for that id' is judged (which item survives is undefined); exact argument bytes are checked only through the markers and the superseded-delta probe.",
             "DESIGN.md §3 C16"),
     "C17": ("H-inputs", "exploration",
@@ -94,9 +94,9 @@ CHECKS = {
             "PTY tasks excluded (no PTY in this sandbox); task cancel moments are wall-clock points (judged by the schedule-independent lifecycle grammar only), the cancel-at-every-hook-point gating of the design is not built; the task pump is exercised through real processes, not a scripted reader.",
             "DESIGN.md §3 C17"),
     "C18": ("S", "model_checking",
-            "stateless schedule exploration (engine S) of 2-3 contenders running the recovery protocol over the real authority-lock primitives from every leftover state",
-            "2 (thorough: also 3) contenders x leftover states {no files, dead owner's lock, dead owner's lock+meta, dead owner's meta only}; each runs acquire / meta+reachability / lock record / liveness / stale cleanup / retry over the real primitives (per-actor pid and liveness through cfg(rip_verif) seams) and then holds the role; all interleavings at the file-system step hooks with <=2 (quick) / <=3 (thorough) preemptions; at most one contender may ever hold the role, the holder's lock.json and meta.json must name it, and some contender must get a store whose previous owner is gone.",
-            "The server's private async recovery loop is restated in the harness (same control flow over the public primitives; not bound by a trace-equality run); the 1 s corrupt-lock grace branch, pid reuse, clock skew and the rip-cli client loop are not explored; one known finding (stale-cleanup check-then-rename).",
+            "stateless schedule exploration (engine S) of servers and clients running the recovery protocols over the real authority-lock primitives from every leftover state, at source-hook granularity and with every file-system call as a scheduling and crash point (LD_PRELOAD shim callback)",
+            "Servers (recovery loop) and clients (attach / stale + corrupt cleanup / spawn loop) over the real primitives try_acquire, read meta / lock record, pid_liveness, stale cleanup, corrupt cleanup, write_meta, guard drop (per-actor pid, liveness and reachability through cfg(rip_verif) seams; time = retry sleeps): 2 (thorough: also 3) servers x 7 leftovers of a dead owner {no files, lock, lock+meta, meta only, empty lock, torn lock, torn lock + dead meta}; a live holder (reachable / hung) + 2 servers; a holder shutting down + 2 servers; a server that dies before the effect after each of its hooks + 2 servers; 2 clients or 1 client + 1 server (thorough: 2 + 1) on each leftover; all interleavings at the hooks inside the primitives with <=2 (quick) / <=3 (thorough) preemptions; then the server scenarios again with every file-system call of the primitives as scheduling point and crash point, <=1 / <=2 preemptions. Role intervals [acquired, released-or-died) must never overlap, the live holder's lock.json and meta.json must name it, a client may only attach to the holder, contenders on a dead owner's leftovers must end with a holder, and after every execution a fresh sequential contender must recover the store or defer to the live holder without touching its files.",
+            "The server's private async recovery loop and rip-cli's client loop are restated branch by branch in the harness (a change to the loops themselves is not seen); pid reuse and clock skew are outside the model; two known findings (stale / corrupt cleanup: re-validate then rename), whose signature requires another actor's successful acquisition inside that window.",
             "DESIGN.md §3 C18"),
     "C19": ("P", "exploration",
             "full product of secret-supply configurations x run outcomes, one subprocess with a cleared environment per configuration, through the production router against the scripted provider; canary search over every persisted byte, response and process output",
@@ -105,8 +105,8 @@ CHECKS = {
             "DESIGN.md §3 C19"),
     "C20": ("H-bfs", "model_checking",
             "explicit-state BFS over the real TuiState::update transition function with state dedup",
-            "All states reachable within the depth bound from the initial TuiState, over a frame alphabet covering every surface-relevant kind x seq {0,1,2,5,u64::MAX} x 9 capacity settings, are enumerated by executing the real update function; no-panic, bounds, lookup exactness and fold determinism are checked in every state, render on every new state up to a smaller depth.",
-            "Bounded depth (3 full / 5 on the reduced core in thorough); alphabet values are representatives; state key is the Debug rendering; rip-cli headless renderers are not driven.",
+            "All states reachable within the depth bound from the initial TuiState, over a frame alphabet covering every surface-relevant kind x seq {0,1,2,5,u64::MAX} x 9 capacity settings, are enumerated by executing the real update function; no-panic, bounds, lookup exactness and fold determinism are checked in every state, render (20x8, 80x24, thorough also 200x60) on every new state up to a smaller depth.",
+            "Bounded depth (3 full / 5 on the reduced core in thorough); alphabet values are representatives; state key is the Debug rendering; terminal size is not in the quantifier (degenerate sizes are not rendered); rip-cli headless renderers are not driven.",
             "DESIGN.md §3 C20"),
 }
 
